@@ -10,6 +10,7 @@ import (
 
 	clptypes "github.com/Sifchain/sifnode/x/clp/types"
 	disptypes "github.com/Sifchain/sifnode/x/dispensation/types"
+	tokenregistrytypes "github.com/Sifchain/sifnode/x/tokenregistry/types"
 
 	"sifverif/chain"
 	"sifverif/env"
@@ -282,6 +283,49 @@ func C14(c Ctx) *report.Report {
 		rep.Count("roundtrip.policy")
 		n++
 	}
+	// (5) registries as MsgSetRegistry / MsgRegister / MsgDeregister leave them: any order, a denom listed more than once
+	// (nothing refuses that), entries that differ only in decimals or permissions
+	for i := 0; i < c.N(12, 200); i++ {
+		e := env.New(env.Opts{NUsers: 2, Tokens: []string{"ceth", "cusdc"}})
+		e.BeginBlock()
+		denoms := []string{"rowan", "ceth", "cusdc", "cdash", "ibc/27394FB092D2ECCD56123C74F36E4C1F926001CEADA9CA97EA622B25F41E5EB2"}
+		reg := &tokenregistrytypes.Registry{}
+		for k := 0; k < 3+rng.Intn(5); k++ {
+			en := regEntry(denoms[rng.Intn(len(denoms))], rng.Intn(8))
+			en.Decimals = []int64{18, 6, 0}[rng.Intn(3)]
+			reg.Entries = append(reg.Entries, en)
+		}
+		shape := []string{fmt.Sprintf("set-registry %d entries", len(reg.Entries))}
+		if e.Tx(e.Admin, &tokenregistrytypes.MsgSetRegistry{From: e.Admin.Addr.String(), Registry: reg}).Code != 0 {
+			continue
+		}
+		for k := 0; k < rng.Intn(3); k++ {
+			d := denoms[rng.Intn(len(denoms))]
+			if rng.Intn(2) == 0 {
+				e.Tx(e.Admin, &tokenregistrytypes.MsgDeregister{From: e.Admin.Addr.String(), Denom: d})
+				shape = append(shape, "deregister "+d)
+			} else {
+				e.Tx(e.Admin, &tokenregistrytypes.MsgRegister{From: e.Admin.Addr.String(), Entry: regEntry(d, rng.Intn(8))})
+				shape = append(shape, "register "+d)
+			}
+		}
+		var listed []string
+		dup := false
+		seenD := map[string]bool{}
+		for _, en := range e.App.TokenRegistryKeeper.GetRegistry(e.Ctx()).Entries {
+			listed = append(listed, fmt.Sprintf("%s/%d", en.Denom, en.Decimals))
+			dup = dup || seenD[en.Denom]
+			seenD[en.Denom] = true
+		}
+		settle(e.Chain)
+		r := roundTrip(e.Chain)
+		reportRT(rep, "registry", r, map[string]interface{}{"messages": shape, "registry": listed})
+		rep.Count("roundtrip.registry")
+		if dup {
+			rep.Count("roundtrip.registry.denom-listed-twice")
+		}
+		n++
+	}
 	for i := 0; i*40 < len(cases); i++ {
 		end := (i + 1) * 40
 		if end > len(cases) {
@@ -293,7 +337,7 @@ func C14(c Ctx) *report.Report {
 	rep.Evaluations = n
 	rep.DistinctNontrivial = n
 	rep.ImplTraces = n
-	rep.Rule = "one case = one reachable state (final state of a generated AMM / bridge / dispensation history, or the state after an accepted policy message) exported with ExportAppStateAndValidators, imported by InitChain into a fresh application, exported again: per-module JSON of the eight Sifchain modules compared (epochs start height exempt), and the harness's state readers (pools, providers, buckets, periods, prophecies, whitelists, records, claims, balances) compared on both applications"
+	rep.Rule = "one case = one reachable state (final state of a generated AMM / bridge / dispensation history, the state after an accepted policy message, or a registry uploaded with MsgSetRegistry in any order and with repeated denoms, then edited) exported with ExportAppStateAndValidators, imported by InitChain into a fresh application, exported again: per-module JSON of the eight Sifchain modules compared (epochs start height exempt), and the harness's state readers (pools, providers, buckets, periods, prophecies, whitelists, records, claims, balances) compared on both applications"
 	return rep
 }
 
